@@ -10,11 +10,21 @@ U = 256 * Q            # 0.5 s
 DELAYS = [Q, 2 * Q, U, 2 * U, 3 * U, 4 * U, 7 * U, 20 * U, 120 * U, 7200 * U]
 
 
+# (zone, UTC second at which its clocks go back by one hour)
+FOLDS = [('Europe/Berlin', 1761440400), ('America/New_York', 1762063200), ('Australia/Lord_Howe', 1743865200)]
+
+
 class Gen:
     def __init__(self, rng: random.Random, profile: str) -> None:
         self.r = rng
         self.profile = profile
         self.t0 = EPOCH0_NS + rng.randrange(0, 10**6) * Q * 512
+        self.tz = 'UTC'
+        if rng.random() < 0.15:
+            # the system time zone is about to set its clocks back: instants one hour apart read the same on the
+            # wall clock (run times must be compared as instants)
+            self.tz, fold = rng.choice(FOLDS)
+            self.t0 = fold * 10**9 - rng.randrange(0, 7200) * U
         self.now = self.t0
         self.ops: list = []
         self.ncreated = 0
@@ -187,4 +197,4 @@ def gen_history(rng: random.Random, profile: str = 'mixed') -> dict:
         g.op_advance()
         g.ops.append(['wake'])
     return {'t0': g.t0, 'enabled': enabled, 'store': store, 'fexec': fexec, 'fcb': fcb, 'ops': g.ops,
-            'profile': profile}
+            'profile': profile, 'tz': g.tz}
